@@ -8,7 +8,8 @@
 From OV Require Import Common.Base C05.Model C05.Disp.
 Open Scope Z_scope.
 
-Record sess := mkSess { ph : Phase; sy : sys; ipcpOpen : bool; ip6Open : bool; linkEnded : bool }.
+Record sess := mkSess { ph : Phase; sy : sys; ipcpOpen : bool; ip6Open : bool; linkEnded : bool;
+                        published : bool (* internal/l2tp only: lifecyclePublished *) }.
 
 (* what the session emits, in order *)
 Inductive SOut :=
@@ -18,10 +19,12 @@ Inductive SOut :=
 | OProtoRejSent (proto : Z)            (* LCP Protocol-Reject sent for an unknown protocol *)
 | OSessionOpen.                        (* checkOpen: phase Open, lifecycle Active, dataplane add *)
 
-Record scfg := mkScfg { s_cfg : cfg; has_v4 : bool; echo_fixed : bool }.
+(* lns = the owner is internal/l2tp (LNS session) instead of internal/pppoe; lns_down_fixed = its onLCPDown takes
+   the NCPs Down as internal/pppoe's does (fixes/C05_lns_lcp_down_ncp_down.patch) *)
+Record scfg := mkScfg { s_cfg : cfg; has_v4 : bool; echo_fixed : bool; lns : bool; lns_down_fixed : bool }.
 
-Definition set_sys (y : sys) (s : sess) : sess := mkSess (ph s) y (ipcpOpen s) (ip6Open s) (linkEnded s).
-Definition set_ph (p : Phase) (s : sess) : sess := mkSess p (sy s) (ipcpOpen s) (ip6Open s) (linkEnded s).
+Definition set_sys (y : sys) (s : sess) : sess := mkSess (ph s) y (ipcpOpen s) (ip6Open s) (linkEnded s) (published s).
+Definition set_ph (p : Phase) (s : sess) : sess := mkSess p (sy s) (ipcpOpen s) (ip6Open s) (linkEnded s) (published s).
 Definition put (t : Target) (f : fsm) (y : sys) : sys :=
   match t with
   | TLcp => mkSys f (s_ipcp y) (s_ip6 y) | TIpcp => mkSys (s_lcp y) f (s_ip6 y)
@@ -30,34 +33,37 @@ Definition put (t : Target) (f : fsm) (y : sys) : sys :=
 Definition visible (a : Act) : bool := match a with Irc | Zrc => false | _ => true end.
 Definition fsm_outs (t : Target) (f : fsm) : list SOut := map (OFsm t) (filter visible (outs f)).
 
-(* func (s *SessionState) checkOpen() *)
-Definition checkOpen (s : sess) : sess * list SOut :=
+(* func (s *SessionState) checkOpen()  /  internal/l2tp checkSessionOpen (which opens the session only once:
+   lifecyclePublished) *)
+Definition checkOpen (c : scfg) (s : sess) : sess * list SOut :=
   match ph s with
-  | PhNetwork => if ipcpOpen s || ip6Open s then (set_ph PhOpen s, [OSessionOpen]) else (s, [])
+  | PhNetwork =>
+      if (ipcpOpen s || ip6Open s) && negb (lns c && published s)
+      then (mkSess PhOpen (sy s) (ipcpOpen s) (ip6Open s) (linkEnded s) (lns c), [OSessionOpen]) else (s, [])
   | _ => (s, [])
   end.
 
 (* the callbacks of an NCP: onIPCPUp / onIPCPDown / onIPv6CPUp / onIPv6CPDown, run in the order in which the
    automaton reports tlu / tld during one transition *)
-Definition ncp_callback (t : Target) (a : Act) (s : sess) : sess * list SOut :=
+Definition ncp_callback (c : scfg) (t : Target) (a : Act) (s : sess) : sess * list SOut :=
   match a, t with
-  | Tlu, TIpcp => checkOpen (mkSess (ph s) (sy s) true (ip6Open s) (linkEnded s))
-  | Tlu, TIp6 => checkOpen (mkSess (ph s) (sy s) (ipcpOpen s) true (linkEnded s))
-  | Tld, TIpcp => (mkSess (ph s) (sy s) false (ip6Open s) (linkEnded s), [])
-  | Tld, TIp6 => (mkSess (ph s) (sy s) (ipcpOpen s) false (linkEnded s), [])
+  | Tlu, TIpcp => checkOpen c (mkSess (ph s) (sy s) true (ip6Open s) (linkEnded s) (published s))
+  | Tlu, TIp6 => checkOpen c (mkSess (ph s) (sy s) (ipcpOpen s) true (linkEnded s) (published s))
+  | Tld, TIpcp => (mkSess (ph s) (sy s) false (ip6Open s) (linkEnded s) (published s), [])
+  | Tld, TIp6 => (mkSess (ph s) (sy s) (ipcpOpen s) false (linkEnded s) (published s), [])
   | _, _ => (s, [])
   end.
-Fixpoint ncp_react (t : Target) (acts : list Act) (s : sess) : sess * list SOut :=
+Fixpoint ncp_react (c : scfg) (t : Target) (acts : list Act) (s : sess) : sess * list SOut :=
   match acts with
   | [] => (s, [])
   | a :: acts =>
-      let (s1, o1) := ncp_callback t a s in
-      let (s2, o2) := ncp_react t acts s1 in
+      let (s1, o1) := ncp_callback c t a s in
+      let (s2, o2) := ncp_react c t acts s1 in
       (s2, (if visible a then [OFsm t a] else []) ++ o1 ++ o2)
   end.
 (* an event delivered to an NCP automaton (t = TIpcp / TIp6), with its callbacks *)
 Definition ncp_event (c : scfg) (v : variant) (t : Target) (f' : fsm) (s : sess) : sess * list SOut :=
-  ncp_react t (outs f') (set_sys (put t f' (sy s)) s).
+  ncp_react c t (outs f') (set_sys (put t f' (sy s)) s).
 Definition ncp_apply (c : scfg) (v : variant) (t : Target) (e : Ev) (s : sess) : sess * list SOut :=
   ncp_event c v t (step (ncp_cfg_of (s_cfg c)) v (get t (sy s)) e) s.
 Definition seq2 (f g : sess -> sess * list SOut) (s : sess) : sess * list SOut :=
@@ -73,9 +79,13 @@ Definition lcp_callback (c : scfg) (v : variant) (a : Act) (s : sess) : sess * l
   match a with
   | Tlu => (set_ph PhAuthenticate s, [OChap 1])
   | Tld =>
+      if lns c && negb (lns_down_fixed c)
+      then (set_ph PhEstablish s, [])            (* internal/l2tp onLCPDown before the fix: s.Phase = Establish *)
+      else
       let (s1, o1) := seq2 (ncp_apply c v TIpcp EDown) (ncp_apply c v TIp6 EDown) s in
-      let ended := match ph s1 with PhNetwork | PhOpen => true | _ => linkEnded s1 end in
-      (mkSess PhEstablish (sy s1) (ipcpOpen s1) (ip6Open s1) ended, o1)
+      let ended := if lns c then linkEnded s1
+                   else match ph s1 with PhNetwork | PhOpen => true | _ => linkEnded s1 end in
+      (mkSess PhEstablish (sy s1) (ipcpOpen s1) (ip6Open s1) ended (published s1), o1)
   | _ => (s, [])
   end.
 Fixpoint lcp_react (c : scfg) (v : variant) (acts : list Act) (s : sess) : sess * list SOut :=
@@ -94,8 +104,8 @@ Definition lcp_apply (c : scfg) (v : variant) (e : Ev) (s : sess) : sess * list 
 Definition any_apply (c : scfg) (v : variant) (t : Target) (e : Ev) (s : sess) : sess * list SOut :=
   match t with TLcp => lcp_apply c v e s | TNone => (s, []) | _ => ncp_apply c v t e s end.
 
-(* the OnEchoReq closure of initPPP: today the reply depends on the PHASE (Open / Network); RFC 1661 5.8
-   makes it depend on the LCP automaton being in Opened (echo_fixed) *)
+(* the OnEchoReq closure of initPPP: RFC 1661 5.8 makes the reply depend on the LCP automaton being in Opened
+   (echo_fixed = true: /repo HEAD since 1b41d89); before that it depended on the PHASE (Open / Network) *)
 Definition echo_reply_due (c : scfg) (s : sess) : bool :=
   if echo_fixed c
   then st_eqb (st (s_lcp (sy s))) Opened && negb (match ph s with PhLACTunneled => true | _ => false end)
@@ -107,7 +117,7 @@ Definition host_call (c : scfg) (v : variant) (h : HostCall) (s : sess) : sess *
   | HProtoRej p =>                                    (* handleProtocolReject *)
       if p =? ProtoIPCP then ncp_apply c v TIpcp EClose s
       else if p =? ProtoIPv6CP then ncp_apply c v TIp6 EClose s else (s, [])
-  | HSendProtoRej p _ => (s, [OProtoRejSent p])
+  | HSendProtoRej p _ => if lns c then (s, []) else (s, [OProtoRejSent p])   (* l2tp: no SendProtocolReject *)
   | _ => (s, [])                                      (* Echo-Reply bookkeeping, PAP/CHAP/IPv6: not modelled *)
   end.
 
@@ -141,7 +151,8 @@ Definition sess_step (c : scfg) (v : variant) (s : sess) (o : XOp) : sess * list
       let y1 := match ph s with
                 | PhOpen | PhNetwork => mkSys (s_lcp y) (kill (s_ipcp y)) (kill (s_ip6 y))
                 | _ => y end in
-      (mkSess PhTerminate (mkSys (kill (s_lcp y1)) (s_ipcp y1) (s_ip6 y1)) (ipcpOpen s) (ip6Open s) (linkEnded s), [])
+      (mkSess PhTerminate (mkSys (kill (s_lcp y1)) (s_ipcp y1) (s_ip6 y1)) (ipcpOpen s) (ip6Open s) (linkEnded s)
+              (published s), [])
   end.
 
 Fixpoint sess_run (c : scfg) (v : variant) (s : sess) (ops : list XOp) : sess * list (list SOut) :=
@@ -151,4 +162,4 @@ Fixpoint sess_run (c : scfg) (v : variant) (s : sess) (ops : list XOp) : sess * 
                 let (s2, o2) := sess_run c v s1 ops in (s2, o1 :: o2)
   end.
 
-Definition sess_init (pl pi pv : nat -> Z) : sess := mkSess PhDead (sys_init pl pi pv) false false false.
+Definition sess_init (pl pi pv : nat -> Z) : sess := mkSess PhDead (sys_init pl pi pv) false false false false.
